@@ -147,7 +147,7 @@ func (g *ribGen) entry(o *drv.OpSpec) {
 				o.Key = uint64(11 + g.r.Intn(5))
 			}
 		case "v6":
-			o.Key = uint64(1 + g.r.Intn(2))
+			o.Key = drv.Pick(g.r, uint64(1), 2, 1, 2, 1, 2, 5, 6)
 			if malformed && g.r.Chance(1, 2) {
 				o.Key = uint64(11 + g.r.Intn(4))
 			}
@@ -182,6 +182,11 @@ func (g *ribGen) step() RStep {
 			return RStep{K: "flush", NIs: []int{1, 2, 3}}
 		}
 		return RStep{K: "flush", NIs: [][]int{{1}, {2}, {3}, {1, 2}, {2, 3}}[g.r.Intn(5)]}
+	}
+	if len(g.hist) > 0 && g.r.Chance(1, 12) {
+		// an earlier operation's key is deleted (exactly as it was spelled)
+		h := g.hist[g.r.Intn(len(g.hist))]
+		return RStep{K: "del", Op: &drv.OpSpec{ID: g.id(), NI: h.NI, Kind: "DELETE", T: h.T, Key: h.Key}}
 	}
 	if len(g.hist) > 0 && g.r.Chance(1, 6) {
 		// an earlier operation is programmed again: identical, with leaves removed, or with one leaf changed
